@@ -286,15 +286,15 @@ class WireMonitor(Monitor):
             return
         key = (st.idx, st.gen, typ, p["so"]["addr"]["mid"], p["sn"])
         got = self.rx_frames.get(key, [])
+        if cause and cause[0] == "rx" and cause[1] < len(sim.hist.rx):
+            trig = sim.hist.rx[cause[1]]
+            tp = trig.get("parsed")
+            if trig["st"] == st.idx and tp and "secured" not in tp and tp.get("sn") == p["sn"] and \
+                    tp["so"]["addr"]["mid"] == p["so"]["addr"]["mid"] and trig.get("ptype") == typ:
+                got = [trig]      # the reception that triggered this transmission
         if not got:
             self.v(sim, "C06", "forward-differs", f"{typ}/never-received", f"station {st.idx} forwarded {typ} sn={p['sn']} it never received")
             return
-        self.fwd_count[key] = self.fwd_count.get(key, 0) + 1
-        if self.fwd_count[key] > 1:
-            # at most once while the SN is inside the duplicate-detection window
-            dups = [r for r in got if r.get("dpl") == "dup"]
-            if dups or all(r.get("dpl") in ("fresh", "dup") for r in got) and len([r for r in got if r.get("dpl") == "fresh"]) < self.fwd_count[key]:
-                self.v(sim, "C06", "forwarded-twice", f"{typ}/{alg}", f"station {st.idx} forwarded {typ} sn={p['sn']} of {key[3].hex()} {self.fwd_count[key]} times")
         frame = rec["frame"]
         ok = False
         exhausted = True
